@@ -251,7 +251,12 @@ def _run_one(spec, tier, seed, replay=None):
             if not hr["ok"]:
                 infra_errors.append("release harness build failed:\n" + hr["log"][-2000:])
             else:
-                sample = [l for l in inputs[:int(spec.get("release_n", 4000))]
+                # quick tier: the corpus and the first 40 % of the generated cases (the model is evaluated again
+                # for every replayed case: the whole stream would double the driver time); thorough: `release_n`
+                cap = int(spec.get("release_n", 4000))
+                if tier == "quick":
+                    cap = min(cap, max(60, int(0.4 * len(inputs))))
+                sample = [l for l in inputs[:cap]
                           if "anic" not in (obs_by_id.get(l.split(" ", 1)[0]) or "anic")]
                 # judged by the same driver (canonicalised observables), not by comparing raw text
                 o_r, v_r, e_r = evaluate(spec, hr["path"], db["path"], sample)
